@@ -42,6 +42,8 @@ package connectconformance
 //@    tc.Request.StreamType == c.StreamType && tc.Request.MessageReceiveLimit == 1048576 &&
 //@    (len(tc.Request.ServerTlsCert) > 0) == c.UseTLS && (tc.Request.ClientTlsCreds != nil) == (c.UseTLS && c.UseTLSClientCerts)
 //@ func (*testCaseLibrary).expandCases
+//@   //# the default method goes with the test's stream type: Unary, ClientStream, ServerStream, and BidiStream for both bidi types
+//@   assert_at "testCase.Request.Method = &methodName": (testCase.Request.StreamType == 1 ==> methodName == "Unary") && (testCase.Request.StreamType == 2 ==> methodName == "ClientStream") && (testCase.Request.StreamType == 3 ==> methodName == "ServerStream") && (testCase.Request.StreamType == 4 || testCase.Request.StreamType == 5 ==> methodName == "BidiStream")
 //@   requires lib != nil && lib.testCases != nil && lib.testCaseNames != nil
 //@   requires forall i int :: 0 <= i && i < len(testCases) ==> testCases[i] != nil && testCases[i].Request != nil
 //@   modifies mapof(testCaseLibrary.testCases), mapof(testCaseLibrary.testCaseNames), conformancev1.ClientCompatRequest.*, conformancev1.TLSCreds.*, *string, []string
